@@ -1,6 +1,7 @@
 package main
 
 import (
+	"go/token"
 	"encoding/json"
 	"golang.org/x/tools/go/ssa"
 	"os/exec"
@@ -172,6 +173,7 @@ func runCheck(id, tier, repo, keep string, writeEvidence bool) int {
 	}
 	var all []*Obligation
 	var units []*Unit
+	sweptUnits := map[*Unit]bool{}
 	var engErrs []string
 	funcsUnderContract := []string{}
 	assumedUsed := map[string]bool{}
@@ -232,6 +234,9 @@ func runCheck(id, tier, repo, keep string, writeEvidence bool) int {
 		}
 		u := eng.VerifyFunction(fn, VerifyOpts{IgnoreRequires: us.Unconstrained, SafetyOnly: us.SafetyOnly, Also: us.Also})
 		units = append(units, u)
+		if us.swept {
+			sweptUnits[u] = true
+		}
 		funcsUnderContract = append(funcsUnderContract, strings.TrimPrefix(full, modulePath+"/internal/"))
 		for _, e := range u.errs {
 			if clauseEvalErr.MatchString(e) {
@@ -449,6 +454,15 @@ func runCheck(id, tier, repo, keep string, writeEvidence bool) int {
 			continue
 		}
 		replay := writeReplay(eng, id, o, dir)
+		if !replay.Confirmed && sweptUnits[o.Unit] && coveredInContext(eng, o, all, units) {
+			// a swept helper is checked for arbitrary arguments; this obligation needs a
+			// precondition the helper does not state, but the helper is unexported, has no contract,
+			// every one of its callers is verified in this check with the helper's body inlined, and
+			// there the same obligation holds: no reachable input fails it
+			fmt.Printf("NOTE: property=%s %s fails for arbitrary arguments but holds at every call site (unexported helper, inlined into all its callers)\n", id, o.Name)
+			total--
+			continue
+		}
 		if !replay.Confirmed && o.Kind == "frame-unmodelled" {
 			strict := false
 			for _, sub := range ps.UnmodelledIsViolation {
@@ -527,7 +541,17 @@ func runCheck(id, tier, repo, keep string, writeEvidence bool) int {
 		for _, k := range sortedStrKeys(eng.drift) {
 			fmt.Printf("CONTRACT-DRIFT property=%s %s: %s\n", id, k, eng.drift[k])
 		}
-		if violations+boundedViolations == 0 && exit == 0 {
+		onlyAids := true
+		for k := range eng.drift {
+			if !eng.aidDrift[k] {
+				onlyAids = false
+			}
+		}
+		if onlyAids && undecided == 0 && violations+boundedViolations == 0 && exit == 0 {
+			// only unnamed loop invariants (proof aids) were dropped and every obligation - every
+			// clause of the property among them - is discharged without them: nothing is undecided
+			fmt.Printf("NOTE: property=%s the dropped invariants were proof aids; all %d obligations are discharged without them\n", id, total)
+		} else if violations+boundedViolations == 0 && exit == 0 {
 			fmt.Printf("ENGINE-ERROR property=%s contract drift and no violation found (%d obligations undecided): the contracts must be brought in line with the code\n", id, undecided)
 			exit = 2
 		}
@@ -788,4 +812,92 @@ func sortedStrKeys(m map[string]string) []string {
 	}
 	sort.Strings(ks)
 	return ks
+}
+
+
+// coveredInContext: o failed in the standalone (swept, arbitrary-argument) unit of an unexported,
+// uncontracted function; is the same obligation discharged in every calling context?
+func coveredInContext(eng *Engine, o *Obligation, all []*Obligation, units []*Unit) bool {
+	if o.Unit == nil || o.Unit.Fn == nil {
+		return false
+	}
+	fn := o.Unit.Fn
+	dbg := func(f string, a ...interface{}) {
+		if os.Getenv("GOVC_DEBUG") != "" {
+			fmt.Fprintf(os.Stderr, "coveredInContext %s: "+f+"\n", append([]interface{}{o.Name}, a...)...)
+		}
+	}
+	if fn.Parent() != nil || fn.Synthetic != "" || token.IsExported(fn.Name()) || eng.contractFor(fn) != nil {
+		dbg("not a plain unexported uncontracted function")
+		return false
+	}
+	unitFns := map[*ssa.Function]bool{}
+	for _, u := range units {
+		if u.Fn != nil {
+			unitFns[u.Fn] = true
+		}
+	}
+	callers := 0
+	for _, g := range eng.fnIndex {
+		if !eng.inRepo(g) || g.Blocks == nil || g == fn {
+			continue
+		}
+		if strings.HasSuffix(eng.fset.Position(g.Pos()).Filename, "_test.go") {
+			continue
+		}
+		for _, b := range g.Blocks {
+			for _, in := range b.Instrs {
+				isCall := false
+				if c, ok := in.(ssa.CallInstruction); ok && c.Common().StaticCallee() == fn {
+					if _, plain := in.(*ssa.Call); !plain {
+						return false // go / defer: not inlined
+					}
+					isCall = true
+					root := g
+					for root.Parent() != nil {
+						root = root.Parent()
+					}
+					if !unitFns[root] {
+						dbg("caller %s is not a unit", root)
+						return false // a caller this check does not verify
+					}
+					callers++
+				}
+				if _, dbgRef := in.(*ssa.DebugRef); dbgRef {
+					continue
+				}
+				for _, op := range in.Operands(nil) {
+					if *op == ssa.Value(fn) && !isCall {
+						dbg("used as a value in %s", g)
+						return false // the function is used as a value
+					}
+				}
+			}
+		}
+	}
+	if callers == 0 {
+		return false
+	}
+	name := fnDisplayName(fn) + " / "
+	i := strings.Index(o.Name, name)
+	if i != 0 {
+		return false
+	}
+	clause := o.Name[len(name):]
+	if j := strings.LastIndex(clause, " #"); j >= 0 {
+		clause = clause[:j]
+	}
+	found := 0
+	for _, p := range all {
+		if p == o || !strings.Contains(p.Name, " > "+name+clause) {
+			continue
+		}
+		found++
+		if !p.Holds() {
+			dbg("fails in context too: %s", p.Name)
+			return false
+		}
+	}
+	dbg("callers %d, inlined occurrences %d", callers, found)
+	return found > 0
 }
